@@ -2,9 +2,9 @@ SPECIFICATION Spec
 CONSTANTS
   Rule = "max"
   Families = {"geo", "rev", "gap", "phot", "two"}
-  Starts = {7, 30}
-  Lens = {3, 5}
-  ASet = {3}
+  Starts = {7, 18, 30, 41}
+  Lens = {3, 4, 5, 6}
+  ASet = {0, 1, 3}
   ARef = 2
   Licensed = TRUE
   Export = TRUE
